@@ -98,8 +98,11 @@ def _prune(parent, prefix, keep):
         return
     ds = [d for d in ds if os.path.isdir(d)]
     ds.sort(key=lambda d: os.path.getmtime(d), reverse=True)
-    for d in ds[keep:]:
-        shutil.rmtree(d, ignore_errors=True)
+    now = time.time()
+    for i, d in enumerate(ds):
+        # keep the newest few; drop what has not been used for hours (several builders may share this cache)
+        if i >= keep or (i >= 3 and now - os.path.getmtime(d) > 6 * 3600):
+            shutil.rmtree(d, ignore_errors=True)
 
 
 class Lib:
@@ -143,7 +146,7 @@ def build_lib(variant="asan", defines=()):
         os.rename(lib.lib + ".tmp", lib.lib)
         for o in objs:
             os.unlink(o)
-        _prune(parent, variant + "-", 3)
+        _prune(parent, variant + "-", 40)
         return lib
     finally:
         fcntl.flock(lockf, fcntl.LOCK_UN)
